@@ -270,6 +270,10 @@ class MaskCombinator(Generic[R], GenerativeFunction[Mask[R]]):
         args: tuple[Any, ...],
     ) -> tuple[Score, Mask[R]]:
         check, inner_args = args[0], args[1:]
+        if FlagOp.concrete_false(check):
+            # Nothing is sampled (the trace's choice map is empty): score 0 and an invalid
+            # return value, without asking the inner function for choices.
+            return jnp.zeros(()), Mask(self.gen_fn.__abstract_call__(*inner_args), check)
         score, retval = self.gen_fn.assess(sample, inner_args)
         return (
             check * score,
